@@ -65,7 +65,8 @@ def job(a):
                  plausible_upper_bounds=np.full(D, off + box), options={"display": "off", "random_seed": seed})
         r = b.optimize()
     except Exception as e:  # noqa
-        return dict(a=list(a), error=repr(e)[:120])
+        from ..common import exc_signature
+        return dict(a=list(a), error=repr(e)[:120], sig=exc_signature(e))
     d = np.ravel(r["x"]) - m
     return dict(a=list(a), gap=float(0.5 * d @ A @ d), hit=st["hit"], n=int(r["func_count"]), first=st["first"], fval=float(r["fval"]))
 
@@ -85,7 +86,9 @@ def panel(quick, seed):
 def replay(case, key):
     if case.get("kind") == "run":
         r = job(tuple(case["a"]))
-        return ("error" in r) or r["gap"] > r["first"]
+        if "/run-error/" in key:
+            return "error" in r and key.endswith("/run-error/%s" % r.get("sig", "?"))
+        return ("error" not in r) and (r["gap"] > r["first"] or r["fval"] > r["first"])
     res = pmap(job, [tuple(a) for a in case["panel"]])
     return bool(judge(res)[0])
 
@@ -119,7 +122,8 @@ def run(ctx):
     res = pmap(job, jobs)
     for r in res:
         if "error" in r:
-            rep.violation("default run on a smooth convex target failed", "run-error", r["error"], dict(kind="run", a=r["a"]))
+            # keyed by exception type and innermost pybads frame, so that a listed finding is one call site, not "any failure"
+            rep.violation("default run on a smooth convex target failed", "run-error/%s" % r.get("sig", "?"), r["error"], dict(kind="run", a=r["a"]))
         elif r["gap"] > r["first"] or r["fval"] > r["first"]:
             rep.violation("returned point is worse than the (snapped) starting point", "worse-than-start", r, dict(kind="run", a=r["a"]))
     bad, stats = judge(res)
